@@ -25,6 +25,10 @@ type genEngine struct {
 	SyncKill        bool // a goroutine of runPipeline that defers a WaitGroup.Done() Kills the tomb itself before returning its error
 	ForceIntent     bool // the force-stop branch also stores intentionalStop
 	GuardedDelete   bool // every runningPipelines.Delete of the cleanup is a compare-and-delete
+	OwnClose        bool // the Degraded write of a failed recovery goes through degradeIfCurrent (compare-and-write under publishMu)
+	ownCloseCall    bool
+	ownCloseBare    bool
+	ownCloseHelper  bool
 	DeleteFound     bool
 	Problems        []string
 	helperGuarded   bool
@@ -168,6 +172,9 @@ func analyse(path string) (*genEngine, error) {
 		if fn.Name.Name == "runPipeline" {
 			repairsOfRunPipeline(g, fn)
 		}
+		if fn.Name.Name == "degradeIfCurrent" {
+			g.ownCloseHelper = degradeHelperOK(fn)
+		}
 		if fn.Name.Name == "deleteRunningPipelineIfCurrent" {
 			// v1's helper: Delete under an `if current == rp` guard
 			ok := true
@@ -256,6 +263,7 @@ func analyse(path string) (*genEngine, error) {
 			return true
 		})
 	}
+	g.OwnClose = g.ownCloseCall && !g.ownCloseBare && g.ownCloseHelper
 	if g.deleteViaHelper {
 		g.DeleteFound = g.helperFound
 		g.GuardedDelete = g.GuardedDelete && g.helperFound && g.helperGuarded
@@ -370,8 +378,63 @@ func repairsOfRunPipeline(g *genEngine, fn *ast.FuncDecl) {
 			if sel, ok := c.Fun.(*ast.SelectorExpr); ok && sel.Sel.Name == "deleteRunningPipelineIfCurrent" {
 				g.deleteViaHelper = true
 			}
+			// the closing write of a failed recovery (the one that reports recoveryErr)
+			if sel, ok := c.Fun.(*ast.SelectorExpr); ok && sel.Sel.Name == "degradeIfCurrent" && mentions(c, "recoveryErr") {
+				g.ownCloseCall = true
+			}
+			if sel, ok := c.Fun.(*ast.SelectorExpr); ok && sel.Sel.Name == "UpdateStatus" && mentions(c, "StatusDegraded") &&
+				mentions(c, "recoveryErr") && !guardedByIdentityTest(stack) {
+				g.ownCloseBare = true
+			}
 		}
 	})
+}
+
+// degradeHelperOK: degradeIfCurrent locks publishMu, and its UpdateStatus(StatusDegraded) is reached only when the
+// published run is rp: inside an `if current == rp`, or after a top-level `if ... current != rp { return ... }`.
+func degradeHelperOK(fn *ast.FuncDecl) bool {
+	locks, writes, guarded := false, false, true
+	earlyReturn := false
+	for _, st := range fn.Body.List {
+		if ifs, ok := st.(*ast.IfStmt); ok && !writes {
+			neq := false
+			ast.Inspect(ifs.Cond, func(x ast.Node) bool {
+				if b, ok := x.(*ast.BinaryExpr); ok && b.Op == token.NEQ && (mentions(b.X, "rp") || mentions(b.Y, "rp")) {
+					neq = true
+				}
+				return !neq
+			})
+			if neq && len(ifs.Body.List) > 0 {
+				if _, ok := ifs.Body.List[len(ifs.Body.List)-1].(*ast.ReturnStmt); ok && !mentions(ifs.Body, "UpdateStatus") {
+					earlyReturn = true
+				}
+			}
+		}
+		if mentions(st, "UpdateStatus") {
+			writes = true
+		}
+	}
+	writes = false
+	inspectWithStack(fn.Body, func(n ast.Node, stack []ast.Node) {
+		c, ok := n.(*ast.CallExpr)
+		if !ok {
+			return
+		}
+		sel, ok := c.Fun.(*ast.SelectorExpr)
+		if !ok {
+			return
+		}
+		if sel.Sel.Name == "Lock" && mentions(sel.X, "publishMu") {
+			locks = true
+		}
+		if sel.Sel.Name == "UpdateStatus" && mentions(c, "StatusDegraded") {
+			writes = true
+			if !earlyReturn && !guardedByIdentityTest(stack) {
+				guarded = false
+			}
+		}
+	})
+	return locks && writes && guarded
 }
 
 func coqList(xs []string) string { return "[" + strings.Join(xs, "; ") + "]" }
@@ -409,6 +472,8 @@ func GenLifecycle(repo, dir string) ([]string, error) {
 	fmt.Fprintf(&b, "Definition gen_v2_force_intent : bool := %s.\n", coqBool(v2.ForceIntent))
 	fmt.Fprintf(&b, "Definition gen_v1_compare_and_delete : bool := %s.\n", coqBool(v1.GuardedDelete))
 	fmt.Fprintf(&b, "Definition gen_v2_compare_and_delete : bool := %s.\n", coqBool(v2.GuardedDelete))
+	fmt.Fprintf(&b, "Definition gen_v1_own_close : bool := %s.\n", coqBool(v1.OwnClose))
+	fmt.Fprintf(&b, "Definition gen_v2_own_close : bool := %s.\n", coqBool(v2.OwnClose))
 	if err := os.MkdirAll(dir, 0o755); err != nil {
 		return nil, err
 	}
